@@ -87,7 +87,7 @@ def make_problem(sp, spec):
     gkind = spec["gkind"]
     if gkind == "dense":
         k = max(1, n - 1)
-        Gmat = cplx_randn(rs, (k, n), cplx)
+        Gmat = cplx_randn(rs, (k, n), cplx) * spec.get("gscale", 1)
         G = sp.linop.MatMul([n, 1], Gmat)
     elif gkind == "fd":
         G = sp.linop.FiniteDifference([n, 1], axes=[0])
@@ -199,7 +199,10 @@ def step_kwargs(P, solver_eff, given):
     if solver_eff == "PrimalDualHybridGradient":
         K = Am if P["G"] is None else np.vstack([Am, Gm])
         nk = float(np.linalg.norm(K, 2))
-        return {"tau": 0.95 / nk, "sigma": 1.0 / nk} if nk > 0 else {"tau": 1.0, "sigma": 1.0}
+        both = {"tau": 0.95 / nk, "sigma": 1.0 / nk} if nk > 0 else {"tau": 1.0, "sigma": 1.0}
+        if given in ("tau", "sigma"):          # ONE step given, the other one defaulted from it (MaxEig of the stacked operator)
+            return {given: both[given]}
+        return both
     if solver_eff == "ADMM":
         return {"rho": RHO_GIVEN}
     return {}
@@ -529,7 +532,7 @@ def run(ctx):
             for zg in (False, True):
                 for pk in PROXES:
                     for gk in GKINDS:
-                        for given in (False, True):
+                        for given in ((False, True, "tau", "sigma") if solver == "PrimalDualHybridGradient" else (False, True)):
                             for xgiven in (False, True):
                                 spec = dict(seed=rng.randrange(2 ** 31), n=4, m=6, cplx=False, gkind=gk, prox=pk, lam=lam, z=zg)
                                 flags, obs, dexpr, info = config_case(sp, spec, solver, given, xgiven, nprs)
@@ -598,6 +601,12 @@ def run(ctx):
             if solver is None and ci % 2:
                 continue          # the default choice duplicates an explicit solver; run it on every other problem
             jobs.append(dict(spec=spec, solver=solver, given=bool(rng.getrandbits(1)), xgiven=bool(rng.getrandbits(1))))
+    # PDHG with G and ONE of tau / sigma supplied: the other is defaulted from the norm of the STACKED operator [A; G]
+    for ci in range(ctx.n(12, 60)):
+        n = rng.choice([3, 4, 5])
+        spec = dict(seed=rng.randrange(2 ** 31), n=n, m=n + rng.choice([0, 1, 2]), cplx=(ci % 3 == 1), akind="matmul",
+                    gkind=rng.choice(["dense", "dense", "fd"]), prox=rng.choice(["l1", "l1", "l2"]), lam=bool(ci % 2), z=bool(ci % 4 == 1), gscale=rng.choice([2.0, 4.0]))
+        jobs.append(dict(spec=spec, solver="PrimalDualHybridGradient", given=["tau", "sigma"][ci % 2], xgiven=bool(ci % 3 == 0)))
     # strong l1 term (weight between 0.5 and 1 of ||A^H y||_inf), zero start, default steps: the first primal step lands on 0 again
     for ci in range(ctx.n(4, 24)):
         cplx = ci % 3 == 1
